@@ -227,6 +227,8 @@ class Engine:
     def gen(self, seed, cases, tag):
         out = os.path.join(self.work, f"{self.cfg['name']}-{tag}.trace")
         extra = self.cfg.get("gen_args", [])
+        if isinstance(extra, dict):
+            extra = extra[os.environ.get("VERIF_TIER_EFFECTIVE", "quick")]
         p = subprocess.run([self.bin, "gen", str(seed), str(cases), out] + extra, stdout=subprocess.PIPE,
                            stderr=subprocess.STDOUT, timeout=self.cfg.get("timeout", 3000))
         if p.returncode != 0:
@@ -314,10 +316,16 @@ def match_known(pid, engine, viol, known):
     return None
 
 
+_REPLAY_N = 0
+
+
 def write_replay(pid, kind, engine_cfg, header, ops, detail):
     os.makedirs(os.path.join(ROOT, "replays"), exist_ok=True)
     stamp = time.strftime("%Y%m%d-%H%M%S")
-    path = os.path.join(ROOT, "replays", f"{pid}-{engine_cfg['name'] if engine_cfg else 'proof'}-{stamp}-{os.getpid()}.ops")
+    global _REPLAY_N
+    _REPLAY_N += 1
+    path = os.path.join(ROOT, "replays",
+                        f"{pid}-{engine_cfg['name'] if engine_cfg else 'proof'}-{stamp}-{os.getpid()}-{_REPLAY_N}.ops")
     with open(path, "w") as f:
         f.write(f"# property={pid} kind={kind} engine={(engine_cfg or {}).get('name')}\n")
         for k, v in detail.items():
@@ -376,6 +384,7 @@ def main():
             i += 1
     if tier not in ("quick", "thorough"):
         tier = "quick"
+    os.environ["VERIF_TIER_EFFECTIVE"] = tier
     seed = int(os.environ.get("VERIF_SEED", "0") or 0)
     if pid not in PROPS:
         print(f"unknown property {pid}")
@@ -433,14 +442,17 @@ def main():
                 else:
                     e.disagreements.append({"case": None, "error": "corpus replay failed: " + cf, "trace": cf})
             ncases = ecfg["cases"][tier]
-            shards = min(NCPU, max(1, ncases // ecfg.get("min_shard", 500)))
+            gargs = ecfg.get("gen_args", [])
+            if isinstance(gargs, dict):
+                gargs = gargs[tier]
+            shards = ecfg.get("shards") or min(NCPU, max(1, ncases // ecfg.get("min_shard", 500)))
             per = (ncases + shards - 1) // shards
             procs = []
             for s in range(shards):
                 tag = f"s{s}"
                 out = os.path.join(work, f"{ecfg['name']}-{tag}.trace")
                 procs.append((out, subprocess.Popen([e.bin, "gen", str(seed * 1000 + s), str(per), out]
-                                                    + ecfg.get("gen_args", []),
+                                                    + list(gargs),
                                                     stdout=subprocess.PIPE, stderr=subprocess.STDOUT)))
             for out, p in procs:
                 try:
